@@ -735,3 +735,15 @@ package meta
 //@   store ShardInfo.MarkDelete
 //@     requires [marks_exactly_the_named_shard] val && obj.ID == id
 
+
+// ================================================================ C14: schema cleaning
+// With schema cleaning on, retention drops a column (and a measurement left without columns) when the column's
+// recorded end time is not after the end of the shard group being pruned. The recorded end time of a column is
+// therefore the LATEST end time any writer reported for it: an update never moves it back (late reports from a
+// node with a stale cache would otherwise let retention drop columns - and measurements - that still have data in a
+// newer, unexpired group), and never changes the column's type.
+//@ prop C14
+//@ func (*Data).UpdateSchema
+//@   store CleanSchema
+//@     requires [column_end_time_never_moves_back] had ==> val.EndTime >= prev.EndTime
+//@     requires [column_type_kept] had ==> val.Typ == prev.Typ
